@@ -77,8 +77,9 @@ int pipe_read(int pipe, uint8_t *buffer, size_t size)
 
   int r = (int) read(pipe, buffer, size);
 
-  if (r == 0) {
-    // `read` returns 0 to indicate the other end of the pipe was closed.
+  if (r == 0 && size > 0) {
+    // `read` returns 0 to indicate the other end of the pipe was closed. A
+    // request for zero bytes also returns 0 and says nothing about the pipe.
     return -EPIPE;
   }
 
